@@ -4,7 +4,7 @@
    whatever message is accepted, the origin the glue test uses IS the question that was asked (up to ASCII case),
    so everything it accepts lies in the zone cut out of the ASKED name.  [ex_foreign_origin_admits_victim_glue]
    shows what a guard that lets a foreign question through (seeded change C07-9: guard only for NOERROR) would
-   admit. *)
+   let in. *)
 From Sdns Require Import Common.Base Gen.C07 C07.Model C07.Proofs_names C07.Proofs_exchange C07.Proofs_glue.
 Open Scope N_scope.
 
@@ -77,7 +77,7 @@ Proof.
   split; [reflexivity|]. apply check_glue_sound.
 Qed.
 
-(* what the glue test would admit if the guard let a reply with a FOREIGN question through (C07-9: "only
+(* what the glue test would let in if the guard let a reply with a FOREIGN question through (C07-9: "only
    NOERROR replies are checked" - an NXDOMAIN-coded referral echoing a name of the victim zone): asked
    e0.evil.l1. at level 2, the attacker's glue for ns.victim.l2. is refused with the asked origin and accepted
    with the echoed one *)
